@@ -232,6 +232,27 @@ def run(ctx):
                 tally[f"{bname}:novalue:{' '.join(out.split(' ')[:2])}"] += 1
                 if not out.startswith("lib "):
                     viol.append((bname, impl.real_parse_ast(t), (out + " " + str(sql)[-120:] + " " + str(params)[:80]), f"the literal {lit} has no value, yet the backend did not refuse with a library exception"))
+    # built-ins called with NAMED parameters (the quantifier lists them): every backend translates or refuses with a library exception
+    from odata_query.sql import AstToSqlVisitor, AstToSqliteSqlVisitor, AstToAthenaSqlVisitor
+    NAMED = ["tolower(arg=s1) eq 'a'", "tolower(field=s1) eq 'a'", "contains(field=s1, substr='a')", "length(x=s1) eq 1", "substring(fullstr=s1, index=1) eq 'x'", "concat(a=s1, b=s2) eq 'ab'",
+             "indexof(s1, needle='a') eq 1", "round(number=f1) eq 1", "year(d=d1) eq 2020", "startswith(s1, prefix='a')", "hassubset(a=c1, b=c2)", "now(tz='utc') gt dt1"]
+    for t in NAMED:
+        try:
+            node = impl.real_parse_ast(t)
+        except Exception as e:  # noqa
+            tally["named:parse:" + impl.canon_exc(e).split(" ")[1]] += 1
+            continue
+        for bname, fn in (("std", lambda n: AstToSqlVisitor().visit(n)), ("sqlite", lambda n: AstToSqliteSqlVisitor().visit(n)), ("athena", lambda n: AstToAthenaSqlVisitor("t").visit(n)),
+                          ("roundtrip", lambda n: AstToODataVisitor().visit(n)), ("django", lambda n: oc.django_compile(n)[0]), ("sa-orm", lambda n: oc.sa_compile(n, "orm")[0]), ("sa-core", lambda n: oc.sa_compile(n, "core")[0])):
+            ctx.evaluations += 1
+            try:
+                r = fn(node)
+                out = r if isinstance(r, str) and (r.startswith("lib ") or r.startswith("foreign") or r.startswith("env:") or r in ("ok", "notimpl")) else "ok"
+            except Exception as e:  # noqa
+                out = impl.canon_exc(e)
+            tally[f"{bname}:named:{' '.join(out.split(' ')[:2])}"] += 1
+            if out.startswith("foreign") or (out == "notimpl" and bname != "sa-core"):
+                viol.append((bname, node, out, "internal error leaked"))
     # field names that are also attributes of the objects a backend looks names up in (column collections, model classes, mapped classes): an existing column
     # with such a name must be translated as THAT column, an unknown one must be reported as the library's invalid-field error
     import sqlalchemy as _sa
